@@ -824,7 +824,12 @@ func (h *hist) rollupStep(trig string) { h.rollupStepWith(trig, nil) }
 
 // rollupStepWith: during, if not nil, runs right after the jobs were started (ForceRollup only starts goroutines):
 // a flush that commits while the rollup jobs run.
-func (h *hist) rollupStepWith(trig string, during func()) {
+func (h *hist) rollupStepWith(trig string, during func()) { h.rollupStepFull(trig, "", nil, during) }
+
+// rollupStepFull: custom, if not nil, replaces the plain trigger (one ForceRollup / tick per source store) by a schedule
+// of its own (retrigger.go: directed and unshaped repeated triggers); ctxName, if not empty, names that schedule in the
+// violation classes. The oracle is the same: at quiescence every file whose mark is gone is in its target exactly once.
+func (h *hist) rollupStepFull(trig, ctxName string, custom func(), during func()) {
 	pre := h.books()
 	nBefore := len(h.files)
 	// is the target store of (source family, interval) registered with the store manager when the job looks it up?
@@ -841,11 +846,18 @@ func (h *hist) rollupStepWith(trig string, during func()) {
 	if h.beforeTrigger != nil {
 		h.beforeTrigger()
 	}
-	for _, st := range h.srcStores() {
-		if trig == trigTick {
-			kv.VerifStoreCompact(st)
-		} else {
-			st.ForceRollup()
+	if custom != nil {
+		custom()
+		if h.res.Fatal != "" {
+			return
+		}
+	} else {
+		for _, st := range h.srcStores() {
+			if trig == trigTick {
+				kv.VerifStoreCompact(st)
+			} else {
+				st.ForceRollup()
+			}
 		}
 	}
 	if during != nil {
@@ -889,7 +901,7 @@ func (h *hist) rollupStepWith(trig string, during func()) {
 				}
 			}
 			storeOpen := open[[2]int64{int64(f.Idx), iv}]
-			if trig == trigForce && storeOpen && during == nil {
+			if trig == trigForce && storeOpen && during == nil && len(h.files) == nBefore {
 				// a file that still has to go into this target but carries no mark any more can never be picked up: after a
 				// forced rollup with the target store available the property demands it in the target all the same
 				for _, fr := range h.files[:nBefore] {
@@ -968,6 +980,9 @@ func (h *hist) rollupStepWith(trig string, during func()) {
 			continue
 		}
 		ctx := h.rollupCtx(trig, len(ran) > 0)
+		if ctxName != "" {
+			ctx = ctxName
+		}
 		r := h.m.compare(iv, tv.obs[iv], h.inclFor(iv), 6)
 		h.countCompare(iv, r)
 		if r.Mismatch == 0 {
@@ -985,6 +1000,9 @@ func (h *hist) rollupStepWith(trig string, during func()) {
 	}
 	if anyRan {
 		h.rolled = true
+	}
+	if ctxName != "" {
+		trig = ctxName
 	}
 	h.checkNotes(trig, tv)
 	h.checkBookkeeping(trig, tv, post)
@@ -1402,6 +1420,12 @@ func (h *hist) run(dir string) {
 			h.crashStep(dir)
 		case "shutdown":
 			h.shutdownStep()
+		case "retrigger":
+			h.retriggerStep()
+			name = "rollup"
+		case "storm":
+			h.stormStep(arg)
+			name = "rollup"
 		}
 		h.prevOp = name
 	}
